@@ -50,7 +50,7 @@ type RunConfig struct {
 	HasFocus       bool `json:"has_focus,omitempty"`
 	Focus          int  `json:"focus,omitempty"`
 	FocusRealTimer bool `json:"focus_real_timer,omitempty"`
-	LateResultPm, ReleasePm, ApiPm, HoldPm, BurstPm int
+	LateResultPm, ReleasePm, ApiPm, HoldPm, BurstPm, LogYieldPm int
 	CancelAt       int  `json:"cancel_at,omitempty"`
 	ProofPm        int  `json:"proof_pm,omitempty"`
 	LenientNilBlock bool `json:"lenient_nil_block,omitempty"`
